@@ -46,6 +46,18 @@ pub struct Shared {
     pub written: Vec<u8>,
     pub waker: Option<Waker>,
     pub dropped: bool,
+    /// how many bytes one `poll_write` accepts (0: all of them)
+    pub wcap: usize,
+}
+
+/// the transport's write acceptance is part of the schedule: it is derived from the schedule's seed
+pub fn wcap_of(seed: u64) -> usize {
+    match seed % 8 {
+        0 => 1,
+        1 => 7,
+        2 => 100,
+        _ => 0,
+    }
 }
 
 pub struct SimIo(pub Arc<Mutex<Shared>>);
@@ -82,8 +94,9 @@ impl AsyncWrite for SimIo {
         if let Some(k) = s.werr {
             return Poll::Ready(Err(io::Error::new(IO_KINDS[k], "scripted write fault")));
         }
-        s.written.extend_from_slice(b);
-        Poll::Ready(Ok(b.len()))
+        let n = if s.wcap == 0 { b.len() } else { b.len().min(s.wcap) };
+        s.written.extend_from_slice(&b[..n]);
+        Poll::Ready(Ok(n))
     }
     fn poll_flush(self: Pin<&mut Self>, _: &mut Context<'_>) -> Poll<io::Result<()>> {
         Poll::Ready(Ok(()))
@@ -229,8 +242,8 @@ fn wake(sh: &Arc<Mutex<Shared>>) {
 }
 
 impl World {
-    pub fn new(password: Option<String>) -> World {
-        let sh = Arc::new(Mutex::new(Shared::default()));
+    pub fn new(password: Option<String>, seed: u64) -> World {
+        let sh = Arc::new(Mutex::new(Shared { wcap: wcap_of(seed), ..Shared::default() }));
         let io = SimIo(sh.clone());
         let conn: ConnFut = Box::pin(async move { Client::connect_with_password_opt(io, password.as_deref()).await });
         World {
@@ -434,7 +447,7 @@ fn runtime(seed: u64) -> tokio::runtime::Runtime {
 pub fn run_schedule(pw: Option<String>, actions: &[String], seed: u64) -> String {
     let rt = runtime(seed);
     rt.block_on(async {
-        let mut w = World::new(pw);
+        let mut w = World::new(pw, seed);
         let mut segs = Vec::new();
         for a in actions {
             segs.push(w.act(a).await);
@@ -765,7 +778,7 @@ pub fn gen_schedule(r: &mut Rng, g: &GenCfg, steps: usize, prop: &str) -> String
         } else {
             None
         };
-        let mut w = World::new(pw.clone());
+        let mut w = World::new(pw.clone(), sel_seed);
         let mut sv = SimServer::default();
         sv.locked = g.password && r.chance(1, 2);
         let locked0 = sv.locked;
